@@ -14,6 +14,8 @@ import Proofs.DmrServer
 import Proofs.DmrDemo
 import Proofs.DmrLookup
 import Proofs.DmrSrc
+import Proofs.DmrQuote
+import Proofs.DmrServerDemo
 namespace Pydap.C11
 open Pydap Pydap.Dmr
 
@@ -62,16 +64,27 @@ theorem C11_uint_attr_typed :
 
 /-- **Whole document**: for every abstract spec — groups nested to any depth, declarations in any order
     (dimensions, variables, attributes and groups interleaved), dimensions declared at any level, the same short
-    name in different groups — whose declarations are locally well formed (`Spec.ok`: plain names, variable tags,
-    attribute values matching their type, distinct attribute names per variable), whose `Dim` references name
-    declared dimensions, and in which no two variables and no two dimensions share a fully qualified name:
-    parsing the independently rendered document yields exactly one record per declared variable, in document
-    order, keyed by its group path, with the declared type, the shape resolved through the declarations the
-    `Dim`s name, the fully qualified dimension names, the maps and the attributes (`expectVars`). -/
+    name in different groups — whose declarations are locally well formed (`Spec.ok`: names of variables and
+    groups are **any non-empty byte strings without `/` that do not start with `dap4`** — blanks, brackets, `.`,
+    `&`, `%`, non-ASCII (as UTF-8 bytes) included; dimension names any non-empty string without `/`; variable
+    tags, attribute values matching their type, distinct attribute names per variable), whose `Dim` references
+    name declared dimensions, and in which no two variables share a key (quoted group path + declared name) and
+    no two dimensions a fully qualified name: parsing the independently rendered document yields exactly one
+    record per declared variable, in document order, filed under its **quoted** group path (`_quote` = C12's
+    `Quote.quote`, `quoteName`) and its declared name, with the declared type, the shape resolved through the
+    declarations the `Dim`s name (looked up under their declared, unquoted names), the fully qualified dimension
+    names, the maps and the attributes (`expectVars`). -/
 theorem C11_parse (pre : List (Str × Str)) (name : Str) (s : Spec)
     (hok : s.ok) (hres : refsResolve s) (hv : distinctVars s) (hd : distinctDims s) :
     parseVars (renderRoot pre name s) = .ok (expectVars s) :=
   parseVars_render pre name s hok hres hv hd
+
+/-- the parser's `_quote` is C12's model; on the names of the domain it is the bytewise map `qn` (C12's `encB`
+    per byte), which keeps `/`, never produces one, and is idempotent (`C12_quote_idempotent`) -/
+theorem C11_quote_is_C12 (n : Str) :
+    quoteName n = ofQ (Pydap.Quote.quote (toQ n)) ∧ quoteName (quoteName n) = quoteName n ∧
+    (goodName n → quoteName n = qn n ∧ quoteName n ≠ [] ∧ '/' ∉ quoteName n) :=
+  ⟨rfl, quoteName_idem n, fun h => ⟨goodName_quote h, (goodName_qseg h).1.1, (goodName_qseg h).1.2⟩⟩
 
 /-- numpy kind, `str(dtype)` and the parser's dtype string for the ten numeric types -/
 def numericDtypes : List (Char × String × String) :=
@@ -86,14 +99,53 @@ theorem C11_server_types :
       dap4ToNumpy (dmrTypeTag d.1 d.2.1.toList) = some d.2.2.toList := by decide
 
 /-- **Addressable by group path**: on the dataset `dmr_to_dataset` assembles from the document (groups created
-    first in `get_groups` order, then the variables stored under their keys) every declared variable is found
-    by following its group path and its name, and what is found is that variable's record — same short names in
-    different groups, variables declared before, between or after sibling groups included. -/
+    first in `get_groups` order under `_quote(fqname)`, then the variables stored under `_quote(key)`) every
+    declared variable is found by following its stored path (`nodePath`: quoted group names, quoted name), and
+    what is found is that variable's record — same short names in different groups, variables declared before,
+    between or after sibling groups, names that quoting changes included.  Distinctness is on *stored* paths
+    (`distinctNodes`): `a.b` and `a%2Eb` in one group are the same stored name. -/
 theorem C11_addressable (pre : List (Str × Str)) (name : Str) (s : Spec)
     (hok : s.ok) (hres : refsResolve s) (hn : distinctNodes s) (hd : distinctDims s) :
     ∃ t, datasetTree (renderRoot pre name s) = .ok t ∧
-      ∀ pv ∈ specVars [] s, Forest.findVar (pv.1 ++ [pv.2.name]) t = some (expectVar pv.1 pv.2) :=
+      ∀ pv ∈ specVars [] s, Forest.findVar (nodePath pv) t = some (expectVar pv.1 pv.2) :=
   datasetTree_find pre name s hok hres hn hd
+
+/-- **… under the declared names and under the stored names**: `dataset["/p₁/…/pₖ"]` (`getitemPath`, the model of
+    `DatasetType._getitem_string` since fix 3e19517: every component is looked up under its quoted name) returns
+    the variable for *every* spelling `p₁ … pₖ` of its path whose components quote to the stored ones — the names
+    as the DMR declares them (`/g h/a.b`), the names as stored (`/g%20h/a%2Eb`, by idempotence), or any mix. -/
+theorem C11_addressable_any_spelling (pre : List (Str × Str)) (name : Str) (s : Spec)
+    (hok : s.ok) (hres : refsResolve s) (hn : distinctNodes s) (hd : distinctDims s) :
+    ∃ t, datasetTree (renderRoot pre name s) = .ok t ∧
+      ∀ pv ∈ specVars [] s, ∀ parts : List Str, (∀ q ∈ parts, segName q) → parts.map quoteName = nodePath pv →
+        getitemPath (pathStr parts) t = some (expectVar pv.1 pv.2) := by
+  obtain ⟨t, ht, hf⟩ := C11_addressable pre name s hok hres hn hd
+  refine ⟨t, ht, ?_⟩
+  intro pv hpv parts hs hq
+  rw [getitemPath_parts parts hs, hq]
+  exact hf pv hpv
+
+/-- the stored spelling is one of them -/
+theorem C11_addressable_stored (pre : List (Str × Str)) (name : Str) (s : Spec)
+    (hok : s.ok) (hres : refsResolve s) (hn : distinctNodes s) (hd : distinctDims s) :
+    ∃ t, datasetTree (renderRoot pre name s) = .ok t ∧
+      ∀ pv ∈ specVars [] s, getitemPath (pathStr (nodePath pv)) t = some (expectVar pv.1 pv.2) := by
+  obtain ⟨t, ht, hf⟩ := C11_addressable_any_spelling pre name s hok hres hn hd
+  refine ⟨t, ht, ?_⟩
+  intro pv hpv
+  obtain ⟨h1, h2, _⟩ := specVars_mem s hok [] hnilq pv hpv
+  apply hf pv hpv
+  · intro q hq
+    simp only [nodePath, List.mem_append, List.mem_singleton] at hq
+    rcases hq with m | rfl
+    · exact (h1 q m).1
+    · exact (goodName_qseg h2.2.1).1
+  · simp only [nodePath, List.map_append, List.map_cons, List.map_nil, quoteName_idem]
+    congr 1
+    conv => rhs; rw [← List.map_id pv.1]
+    apply List.map_congr_left
+    intro q hq
+    exact (h1 q hq).2.2.2
 
 /-- the parser's dtype string a served variable must come back with (the ten numeric types) -/
 def srvDtypeOf (kind : Char) (dtypeName : Str) : Str :=
@@ -105,11 +157,20 @@ def srvDtype (v : SrvVar) : Str := srvDtypeOf v.kind v.dtypeName
 
 theorem C11_server_dtype_table : ∀ d ∈ numericDtypes, srvDtypeOf d.1 d.2.1.toList = d.2.2.toList := by decide
 
+/-- a served attribute whose values are of one kind (all integers — Python ints, numpy integers of any width —, all
+    floats, or all text) is written as a well-formed declaration: its `type` is a DAP4 type of that kind
+    (`_attribute_type`, fix 02bf132) and every integer's `str()` is a decimal text `int()` reads back -/
+theorem C11_server_attr_ok (a : SrvAttr) (h : a.homog) : (srvAttrSpec a).ok := srvAttr_ok a h
+
 /-- **Server round trip**: for every served dataset — groups nested to any depth, each with its own dimensions,
-    variables of the ten numeric types anywhere, variables and groups in any `children()` order — whose names are
-    plain, whose `var.dims` name declared dimensions of the extents of its data and whose fully qualified names are
-    distinct: parsing the DMR the server writes yields exactly the served variables, keyed by group path, each
-    with its own kind and width, its dimension names and the shape of its data. -/
+    variables of the ten numeric types anywhere, variables and groups in any `children()` order, **every variable
+    with any attributes and any Maps** — whose names are `goodName`s (groups, variables) / free of `/` (dimensions),
+    whose `var.dims` name declared dimensions of the extents of its data, whose attributes are well-formed
+    (`C11_server_attr_ok`: values of one kind; distinct names — they are dict keys) and whose fully qualified names
+    are distinct: parsing the DMR the server writes yields exactly the served variables, keyed by group path, each
+    with its own kind and width, its dimension names, the shape of its data, **its Maps, and its attributes under
+    their names with their values** (integers as integers, floats through `float(str(value))`, text as text; one
+    value comes back as a scalar, several as a list: `srvExpect`). -/
 theorem C11_server_roundtrip (name : Str) (dims : List (Str × Nat)) (kids : SrvTree)
     (hty : ∀ pv ∈ srvVars [] kids, ∃ d ∈ numericDtypes, pv.2.kind = d.1 ∧ pv.2.dtypeName = d.2.1.toList)
     (hok : (dimsSpec dims (srvSpec kids)).ok) (hres : refsResolve (dimsSpec dims (srvSpec kids)))
@@ -128,6 +189,27 @@ theorem C11_server_roundtrip (name : Str) (dims : List (Str × Nat)) (kids : Srv
 
 /-! ### non-vacuity -/
 
+example : (srvVars [] srvDemo).map (fun pv => srvExpect (srvDtype pv.2) pv.1 pv.2) =
+    [⟨"x".toList, "x".toList, none, ">i2".toList, ["/x".toList], [2], [some "/x".toList, some "/x".toList],
+      [("rng".toList, .many [.int (-1), .int 2]), ("flag".toList, .one (.int 200)),
+       ("scale".toList, .one (.float "1.5".toList)), ("t".toList, .one (.str "a<b&c".toList))]⟩] := by decide
+example : parseVars (renderServer "d".toList [("x".toList, 2)] srvDemo)
+    = .ok ((srvVars [] srvDemo).map fun pv => srvExpect (srvDtype pv.2) pv.1 pv.2) :=
+  C11_server_roundtrip _ _ _
+    (by intro pv hpv; simp [srvVars, srvDemo] at hpv; subst hpv; exact ⟨('i', "int16", ">i2"), by decide, rfl, rfl⟩)
+    srvDemo_ok
+    (by
+      intro pv hpv fq sz hm
+      simp only [srvDemo, srvSpec, dimsSpec, specVars, List.mem_singleton] at hpv
+      subst hpv
+      simp only [srvVarSpec, List.map_cons, List.map_nil, List.mem_singleton, SDim.named.injEq] at hm
+      obtain ⟨rfl, rfl⟩ := hm
+      exact ⟨([], "x".toList, 2), by simp [dimsSpec, srvSpec, srvDemo, declDims], by decide, rfl⟩)
+    (by unfold distinctVars; decide) (by unfold distinctDims; decide)
+example : SrvAttr.homog ⟨"rng".toList, [.int false 3 (-1), .int false 3 2]⟩ :=
+  Or.inl (by intro v hv; simp at hv; rcases hv with rfl | rfl <;> exact ⟨_, _, _, rfl⟩)
+
+
 example : ∀ d ∈ [SDim.named "/x".toList 3, .anon 5], ∀ fq s, d = .named fq s →
     dictGet [("x".toList, (3 : Int)), ("/g/y".toList, 2)] (dimKey fq) = some s := by
   intro d hd fq s e
@@ -140,6 +222,14 @@ example : SDim.names [.named "/x".toList 3, .anon 5, .named "/g/y".toList 2] = [
 example : parseVars (renderRoot [] "ds".toList demo) = .ok (expectVars demo) :=
   C11_parse [] _ demo demo_ok demo_refs (by unfold distinctVars; decide) (by unfold distinctDims; decide)
 example : distinctNodes demo := by unfold distinctNodes; decide
+-- names that quoting changes
+example : parseVars (renderRoot [] "ds".toList qdemo) = .ok (expectVars qdemo) :=
+  C11_parse [] _ qdemo qdemo_ok qdemo_refs (by unfold distinctVars; decide) (by unfold distinctDims; decide)
+example : distinctNodes qdemo := by unfold distinctNodes; decide
+example : (specVars [] qdemo).map nodePath
+    = [["t%5B0%5D".toList], ["g%20h".toList, "a%2Eb".toList], ["%C3%A9".toList]] := by decide
+/-- the declared spelling `/g h/a.b` of the second variable of `qdemo` quotes to its stored path -/
+example : ["g h".toList, "a.b".toList].map quoteName = ["g%20h".toList, "a%2Eb".toList] := by decide
 example : distinctVars demo ∧ distinctDims demo := by
   constructor
   · unfold distinctVars; decide
